@@ -14,6 +14,15 @@ COMMON_ASSUME = [
     "polling a combinator again after its final result is caller misuse and excluded",
 ]
 
+CO_ASSUME = [
+    "the model of the concurrent-stream pipeline (Fc/CoSpec.lean) is an acceptor for the algorithm's atomic actions; "
+    "futures-buffered's FuturesUnordered is modelled as a bag (which woken member is polled next is resolved by the log)",
+    "the compiler's async-fn lowering and futures-lite's next() are not modelled: the harness observes the source polls, "
+    "closure calls, work-future polls and drops the real code performs",
+    "sources are scripted streams through .co(); Vec::into_co_stream is exercised by the C18 probes and the crate's own tests only",
+    "work-future ids are unique per (closure stage, item) in the harness",
+]
+
 PROPS = {
     "C01": dict(monitor="C01", proj="C01", modules=["C01", "C01seq", "C01g"], cfgs=ALL3, quick=900, thorough=12000,
                 gens=[(ALL_FIXED, "random", 1.0), (GROUPS, "random", 0.4), (CONC, "stuck", 0.3),
@@ -82,4 +91,15 @@ PROPS = {
                       (["sgroup"], "panic", 0.2)],
                 assumptions=COMMON_ASSUME + ["every inserted stream is a new object (Case.insertsFresh) of the right "
                                              "kind (Case.kindOk)"]),
+    "C13": dict(monitor="C13", proj="CO", cfgs=["std", "alloc"], quick=4000, thorough=60000,
+                gens=[(["co"], "random", 1.0), (["co"], "stuck", 0.3), (["co"], "errs", 0.2)],
+                assumptions=CO_ASSUME),
+    "C14": dict(monitor="C14", proj="CO", cfgs=["std", "alloc"], quick=4000, thorough=60000,
+                gens=[(["co"], "errs", 1.0), (["co"], "random", 0.5), (["co"], "stuck", 0.2)],
+                assumptions=CO_ASSUME),
+    "C15": dict(monitor="C15", proj="CO", cfgs=["std", "alloc"], quick=4000, thorough=60000,
+                gens=[(["co"], "random", 1.0), (["co"], "stuck", 0.3), (["co"], "errs", 0.2)],
+                assumptions=CO_ASSUME),
+    "C18": dict(monitor="C18", proj="-", cfgs=["std", "alloc", "nostd"], quick=1, thorough=1, gens=[],
+                runner="c18_runner", assumptions=[]),
 }
